@@ -3,7 +3,7 @@ import json, os, sys, time
 
 from .tlc import VERIF
 
-EVID = os.path.join(VERIF, "evidence")
+EVID = os.environ.get("VERIF_EVIDENCE_DIR", os.path.join(VERIF, "evidence"))
 REPLAYS = os.path.join(EVID, "replays")
 KNOWN = os.path.join(VERIF, "known_findings.json")
 
